@@ -10,6 +10,6 @@ PROP = {
                'with any count > 255 or over-long string must make encode_manifest throw.',
  'level_note': 'Weaker readings: expiry must be a whole second less than 1 s away (floor or truncation both pass); attestation digest is compared only when the flag is set; any '
                'exception type counts as refusal; an encoder refusing a representable manifest is only counted, not failed. Byte-for-byte agreement with the independent encoder '
-               'is reported as a label, not asserted, because the wire layout is not part of the statement.',
+               'is reported as a label, not asserted, because the wire layout is not part of the statement. Second compiler: the same tapes also run against a g++ -O2 ASan/UBSan build of the code under test (engine \'tape-rc (second compiler…)\'), because the two compilers instrument and optimise undefined behaviour differently (e.g. abs(INT64_MIN) is only reported by g++\'s UBSan, and clang can fold such UB into a correct-looking result); failing tapes of that engine are kept as *.gcc.tape and replayed with that build.',
  'assumptions': ['system_clock ticks are 64-bit nanoseconds (static_assert)', 'limits are those in the statement: 255 entries per list, 8/16-bit string length fields'],
- 'tiers': {'quick': [rc(6000)], 'thorough': [rc(60000, W)]}}
+ 'tiers': {'quick': [rc(6000), rc(6000, suffix='_gcc')], 'thorough': [rc(60000, W), rc(60000, 4, suffix='_gcc')]}}
